@@ -31,6 +31,8 @@ from . import runner
 
 VERIF = os.path.dirname(os.path.dirname(os.path.abspath(__file__)))
 KNOWN_FILE = os.path.join(VERIF, 'known_findings.json')
+# sensitivity runs against patched scratch copies write their replays/evidence elsewhere
+OUT = os.environ.get('VERIF_OUT_DIR') or VERIF
 NSHARDS = min(16, os.cpu_count() or 1)
 
 
@@ -198,7 +200,7 @@ def load_known():
 
 
 def write_replay(pid, sig, case, detail) -> str:
-    d = os.path.join(VERIF, 'replays', pid)
+    d = os.path.join(OUT, 'replays', pid)
     os.makedirs(d, exist_ok=True)
     h = hashlib.sha1(canon(case).encode()).hexdigest()[:10]
     name = sig.replace('/', '_').replace(' ', '_')
@@ -302,15 +304,18 @@ def run_check(pid: str, tier: str, seed: int) -> int:
         nt |= set(extra.get('nt', ()))
 
     # 4. classify findings, shrink the unknown ones
+    shrink_left = 120 if tier == 'quick' else 900
     for sig, (r, item) in sorted(by_sig.items()):
         if sig in open_sigs:
             known_seen[sig] = known_seen.get(sig, 0) + fcounts[sig]
             continue
-        budget = 60 if tier == 'quick' else 240
-        if r is not None:
+        budget = min(shrink_left, 45 if tier == 'quick' else 240)
+        ts = time.monotonic()
+        if r is not None and budget > 5:
             best = shrink_signature(prop, tier, r['seed'], per, sig, item, budget)
         else:
             best = {'case': item[1], 'detail': item[2]}
+        shrink_left -= time.monotonic() - ts
         path = write_replay(pid, sig, best['case'], best['detail'])
         violations.append((sig, path))
 
@@ -347,8 +352,8 @@ def run_check(pid: str, tier: str, seed: int) -> int:
         'coverage': coverage, 'assumptions': list(getattr(prop, 'ASSUMPTIONS', [])),
         'wall_s': round(wall, 2), 'violations': len(seen),
     }
-    os.makedirs(os.path.join(VERIF, 'evidence'), exist_ok=True)
-    with open(os.path.join(VERIF, 'evidence', f'{pid}.json'), 'w') as f:
+    os.makedirs(os.path.join(OUT, 'evidence'), exist_ok=True)
+    with open(os.path.join(OUT, 'evidence', f'{pid}.json'), 'w') as f:
         json.dump(ev, f, indent=1, sort_keys=True, default=str)
     print(f'{pid} {tier} seed={seed}: cases={cases} evaluations={evals} distinct_nontrivial={len(nt)} '
           f'violations={len(seen)} known={len(known_seen)} wall={wall:.1f}s')
